@@ -195,4 +195,27 @@ theorem open_earlier (statusValue priceFlags diff : Nat) (ts now now' : Int) (ti
 example : isMarketOpen 3 7 2 90 95 12 0 = true :=
   open_earlier 3 7 2 90 95 100 12 0 (by omega) (by omega) (by omega) (by omega) (by omega) (by omega) (by decide)
 
+/-! ### The policy a verdict is computed under survives every re-configuration of the feed -/
+
+/-- switching the feed id, the timestamp adjustment or the deviation ratio — in any order, any number of
+times — leaves the market-status policy, and therefore the openness verdict of every status, untouched;
+only `set_market_status_flag` changes it -/
+theorem policy_survives_reconfiguration (c : FeedCfg) (ops : List CfgOp)
+    (h : ∀ op ∈ ops, op.isSetFlag = false) (s : Status) :
+    (c.run ops).flags = c.flags ∧ openness s (c.run ops).flags = openness s c.flags := by
+  have key : (c.run ops).flags = c.flags := by
+    unfold FeedCfg.run
+    induction ops generalizing c with
+    | nil => rfl
+    | cons op ops ih =>
+      simp only [List.foldl_cons]
+      rw [ih (c.apply op) (fun o ho => h o (List.mem_cons_of_mem _ ho))]
+      have := h op List.mem_cons_self
+      cases op <;> simp_all [FeedCfg.apply, CfgOp.isSetFlag]
+  exact ⟨key, by rw [key]⟩
+
+/-- a feed switch in the middle of a history: the flags set before it are still in force after it -/
+example : ((⟨1, 0, 0, 0⟩ : FeedCfg).run [.setFlag 2 true, .withFeed 9, .withTsAdj 5]).flags = 4 ∧
+    openness .regularHours ((⟨1, 0, 0, 0⟩ : FeedCfg).run [.setFlag 2 true, .withFeed 9, .withTsAdj 5]).flags = .closed := by decide
+
 end Gmx.C27
